@@ -833,6 +833,9 @@ class C05(Property):
 
         def half(o):
             s = 'out=%s calls=%d dest=%s part=%s' % (outc(o['out']), o['calls'], f(o['dest']), f(o['part']))
+            # the successful events with an effect, in order (a failing close() that closed is one)
+            evs = ['x' if t[0] == 'X' else t for t in (o.get('trace') or []) if t[0] not in 'AF' and t != 'n']
+            s += ' tr=' + (','.join(evs) or '-')
             if o['extra']:
                 s += ' extra=' + ','.join(o['extra'])
             return s
